@@ -11,7 +11,7 @@ META = {"explanation": "carrier contracts restricted to: results allocated by th
 def groups(tier, seed):
     from checks import C08, C14, C01
     gs = [g for g in C08.move_groups(tier) if ".null" in g.gid and not (tier == "quick" and g.gid.startswith("K.mzd_transpose.") and g.slots > 1)]
-    gs += [g for g in C14.groups(tier, seed) if any(x in g.gid for x in ("calloc", "init", "mmc_malloc"))]
+    gs += [g for g in C14.groups(tier, seed) if not g.canary and any(x in g.gid for x in ("calloc", "init", "mmc_malloc"))]
     gs += [g for g in C01.mul_groups(tier) if ".null" in g.gid][:3]
     for g in gs:
         if "C10" not in g.props:
